@@ -21,7 +21,7 @@ before the tables are filled computes with empty tables (wrong scores for the fi
 		Run: runPVInit,
 	})
 	register(&Rule{
-		ID: "ND-argmin", Props: []string{"C05"}, Min: 2,
+		ID: "ND-argmin", Props: []string{"C05", "C19"}, Min: 3,
 		Doc: `selection over a map does not depend on iteration order: inside 'for … range <map>' a running best (if d < best { best = d; pick = k }) must use a strict
 comparison and the loop must neutralise ties (a branch comparing d == best that overwrites the pick); with <= / >= the last tied key in Go's randomised map order wins, so the
 result differs from run to run.`,
@@ -69,7 +69,7 @@ func runPVInit(c *Ctx, s *Sink) {
 }
 
 func runNDArgmin(c *Ctx, s *Sink) {
-	c.EachFunc(append([]string{"pkg/obitax"}, ndScope...), func(p *packages.Package, fd *ast.FuncDecl) {
+	c.EachFunc(append([]string{"pkg/obitax", "pkg/obistats", "pkg/obikmer", "pkg/obitools/obiconsensus"}, ndScope...), func(p *packages.Package, fd *ast.FuncDecl) {
 		info := p.TypesInfo
 		n := 0
 		ast.Inspect(fd.Body, func(nd ast.Node) bool {
@@ -86,6 +86,14 @@ func runNDArgmin(c *Ctx, s *Sink) {
 				b, ok := ast.Unparen(ifs.Cond).(*ast.BinaryExpr)
 				if !ok {
 					return true
+				}
+				// 'd > best || (d == best && tie-break)': the comparison is the first alternative
+				for b.Op == token.LOR {
+					l, ok := ast.Unparen(b.X).(*ast.BinaryExpr)
+					if !ok {
+						return true
+					}
+					b = l
 				}
 				switch b.Op {
 				case token.LSS, token.GTR, token.LEQ, token.GEQ:
